@@ -32,7 +32,7 @@ FLOORS = {"quick": {"distinct_nontrivial": 150, "TraceSymbolTable.invariant": 30
                     "rows_decoded": 10000, "delayed_pool_loads": 15, "incremental_histories": 25, "digest_sets": 6, "digest_runs": 36,
                     "distinct_symbol_orderings": 12, "int8_boundary_loads": 10, "pool_loads_with_more_files_than_workers": 5,
                     "incremental_loads_of_subset_vocabularies": 8, "view_checks": 400, "codec_checks": 300, "codec_frames_str": 100, "codec_frames_object": 100},
-          "thorough": {"distinct_nontrivial": 2000, "TraceSymbolTable.invariant": 40000, "add_symbols.post": 20000, "histories": 3500, "loads": 1000,
+          "thorough": {"distinct_nontrivial": 2000, "TraceSymbolTable.invariant": 40000, "add_symbols.post": 20000, "histories": 3000, "loads": 1000,
                        "rows_decoded": 150000, "delayed_pool_loads": 200, "incremental_histories": 300, "digest_sets": 40, "digest_runs": 400,
                        "distinct_symbol_orderings": 40, "int8_boundary_loads": 100, "pool_loads_with_more_files_than_workers": 40,
                        "incremental_loads_of_subset_vocabularies": 80, "view_checks": 4000, "codec_checks": 3000, "codec_frames_str": 1000, "codec_frames_object": 1000}}
